@@ -80,7 +80,7 @@ def generate(tier, rng):
     # tier-wise edits: reuse the textgrid-level generators of C06-C09
     for mod, ops in ((c06, ("tgcrop",)), (c07, ("tgerase",)), (c08, ("tgspace",)), (c09, ("tgedit",)), (c10, ("mergeTiers",))):
         sub = [c for c in mod.generate("quick", rng) if c["op"] in ops]
-        for c in sub[: (60 if tier == "quick" else 100000)]:
+        for c in sub[: (150 if tier == "quick" else 100000)]:
             cases.append({"op": "tierwise", "via": mod.ID, "case": c, "scale": c["scale"]})
     return cases
 
